@@ -469,6 +469,8 @@ func runCheck(repo, mode string, args []string) int {
 	header := e.header()
 	// select
 	var selected []*Obl
+	closureFuncs := 0
+	_ = closureFuncs
 	perFunc := map[*FuncEnc][]*Obl{}
 	for _, fe := range encs {
 		for _, o := range fe.obls {
@@ -489,6 +491,74 @@ func runCheck(repo, mode string, args []string) int {
 		}
 		selected = append(selected, o)
 		perFunc[o.fe] = append(perFunc[o.fe], o)
+	}
+	// dependency closure: a property's proof rests on the contracts of every function its tagged obligations call by
+	// contract (or inline, or havoc), transitively.  All obligations of those functions belong to the check, whatever
+	// their own tags say: a change inside a callee is noticed only through the callee's own obligations.
+	if prop != "" && prop != "C07" {
+		byName := map[string]*FuncEnc{}
+		for _, fe := range encs {
+			byName[fe.name] = fe
+		}
+		inSet := map[string]bool{}
+		var work []string
+		frontEnd := map[string]bool{"C01": true, "C08": true, "C09": true, "C10": true}
+		otherKnown := map[string]bool{}
+		for _, k := range loadKnownFindings() {
+			if k.State == "open" && k.Property != prop {
+				otherKnown[k.Obligation] = true
+			}
+		}
+		for _, o := range selected {
+			if strings.HasPrefix(o.Kind, "safety.") || o.Kind == "cover" || o.Kind == "lemma" {
+				continue
+			}
+			if frontEnd[prop] && (strings.HasPrefix(o.Func, "interpreter.") || strings.HasPrefix(o.Func, "environment.")) {
+				continue // tagged obligations there stay selected, but the closure does not start from them
+			}
+			if !inSet[o.Func] {
+				inSet[o.Func] = true
+				work = append(work, o.Func)
+			}
+		}
+		for len(work) > 0 {
+			n := work[len(work)-1]
+			work = work[:len(work)-1]
+			fe := byName[n]
+			if fe == nil {
+				continue
+			}
+			for d := range fe.deps {
+				// the front-end properties stop where interpretation starts (they depend on it only through main.run's guard)
+				if frontEnd[prop] && (strings.HasPrefix(d, "interpreter.") || strings.HasPrefix(d, "environment.")) {
+					continue
+				}
+				if !inSet[d] {
+					inSet[d] = true
+					work = append(work, d)
+				}
+			}
+		}
+		have := map[*Obl]bool{}
+		for _, o := range selected {
+			have[o] = true
+		}
+		for _, fe := range encs {
+			if !inSet[fe.name] {
+				continue
+			}
+			for _, o := range fe.obls {
+				if have[o] || otherKnown[o.Name] {
+					continue // (an open known finding recorded under another property is that property's business)
+				}
+				have[o] = true
+				selected = append(selected, o)
+				if !(o.Status == "unsat" && o.Solver == "syntactic") {
+					perFunc[fe] = append(perFunc[fe], o)
+				}
+			}
+		}
+		closureFuncs = len(inSet)
 	}
 	if prop != "" {
 		// engine errors only matter for functions serving this property
